@@ -102,6 +102,44 @@ def make_sparse(r):
     return f
 
 
+def real_gate_worlds(sc, r, runs):
+    """thorough tier: the >= 10 MiB paths WITHOUT scaling the gate (hook value = the real 10 MiB): block delta over a
+    similar 11 MiB destination, change-ratio fallback over a dissimilar one, sparse source over a large destination"""
+    GATE = 10 * 1024 * 1024
+    out = []
+    base = os.path.join(sc.dir, "real")
+    src, dst = base + "/src", base + "/dst"
+    os.makedirs(src); os.makedirs(dst)
+    data = r.randbytes(GATE + 700001)
+    b = bytearray(data)
+    for i in range(0, len(b), 1 << 20):
+        b[i:i + 4096] = r.randbytes(4096)
+    for name, sdata, ddata in (("delta.bin", data, bytes(b) + b"tail"), ("fallback.bin", r.randbytes(GATE + 5), r.randbytes(GATE + 4096)), ("small.txt", b"abc", b"x")):
+        for root, blob, mt in ((src, sdata, 1234), (dst, ddata, 99)):
+            with open(os.path.join(root, name), "wb") as fh:
+                fh.write(blob); fh.flush(); os.fsync(fh.fileno())
+            os.utime(os.path.join(root, name), ns=(ew.T0NS + mt * NS, ew.T0NS + mt * NS))
+    with open(src + "/sparse.img", "wb") as fh:
+        fh.truncate(GATE + 12345); fh.seek(1 << 20); fh.write(b"\x33" * 70000); fh.flush(); os.fsync(fh.fileno())
+    os.utime(src + "/sparse.img", ns=(ew.T0NS + 1234 * NS,) * 2)
+    with open(dst + "/sparse.img", "wb") as fh:
+        fh.write(b"\xee" * (GATE + 4096)); fh.flush(); os.fsync(fh.fileno())
+    os.utime(dst + "/sparse.img", ns=(ew.T0NS + 99 * NS,) * 2)
+    for root in (src, dst):
+        os.utime(root, ns=(ew.T0NS, ew.T0NS))
+    world.sync_fs()
+    ids = ew.Ids()
+    fl = {"j": 1, "big": GATE}
+    for k in range(1, runs + 1):
+        import time
+        t0 = time.time_ns() - 50_000_000
+        case, obs, raw = ew.run_once(sc, src, dst, fl, ids, k=k)
+        kv = dict(x.split("=", 1) for x in obs.split(" "))
+        raw["nerr"] = int(kv["nerr"]); raw["refused"] = kv["refused"] == "1"; raw["run_start_ns"] = t0
+        out.append((case, obs, raw, ("real-gate", k, fl)))
+    return out
+
+
 def generic(pid, tier, seed, runs, oracle_fn, extra_worlds=None):
     res = vlib.Result(pid, tier, seed)
     pr = proof_phase(res, pid)
@@ -123,6 +161,9 @@ def generic(pid, tier, seed, runs, oracle_fn, extra_worlds=None):
             sparse = make_sparse(r) if i % 9 == 4 else None
             for k, (case, obs, raw) in enumerate(run_world(sc, i, sspec, dspec, fl, runs=runs, sparse=sparse), 1):
                 cases.append(case); obs_l.append(obs); raws.append(raw); metas.append((i, k, fl))
+        if tier == "thorough" and pid in ("C01", "C03"):
+            for w in real_gate_worlds(sc, r, runs):
+                cases.append(w[0]); obs_l.append(w[1]); raws.append(w[2]); metas.append(w[3])
         for w in (extra_worlds(sc, r) if extra_worlds else []):
             cases.append(w[0]); obs_l.append(w[1]); raws.append(w[2]); metas.append(w[3])
     model = [ew.model_obs(m) for m in vlib.run_model(cases)]
